@@ -791,3 +791,19 @@ srctie.wire_mut(globals(), 'C11')
 # --- deep theorems (Rounding6: end-to-end residual / backward-error bounds in the standard model, wired by the lead)
 PROOF_MODULES = PROOF_MODULES + [m for m in ['Compute.Lemmas.Rounding6', 'Compute.Props.Rounding6'] if m not in PROOF_MODULES]
 REQUIRED_THEOREMS = REQUIRED_THEOREMS + ['Cv.Rounding6.chol_weight_le']
+
+# --- review round (property owner): determinant clause closed, universal rejection theorem, honest rational sqrt in the witnesses
+PROOF_MODULES = PROOF_MODULES + [m for m in ['Compute.Props.C11Review', 'Compute.Props.C01', 'Compute.Props.C01Review'] if m not in PROOF_MODULES]
+REQUIRED_THEOREMS = REQUIRED_THEOREMS + [t for t in [
+    'Cv.C11Review.matrix_det_eq_det', 'Cv.C11Review.matrix_lu_det_eq_det', 'Cv.C11Review.PAmat_eq_submatrix',
+    'Cv.C11Review.posDef_of_cholFactor', 'Cv.C11Review.cholesky_rejects_not_posDef', 'Cv.C11Review.cholesky_rejects_not_posDef_real',
+    'Cv.C11Lu.lu_pivots_ne_zero_iff_det', 'Cv.C11.cholesky_panics_unless_symmetric',
+    'Cv.C01.forwardSubstitution_spec', 'Cv.C01.backwardSubstitution_spec', 'Cv.C01.ratSqrt_witness',
+    'Cv.C11.matrix_forward_eq_slice', 'Cv.C11.matrix_backward_eq_slice'] if t not in REQUIRED_THEOREMS]
+NOT_PROVED = list(NOT_PROVED) + [
+    "L.L^T = A (cholesky_correct) needs the hypothesis SqrtExactOn (sqrt squares back on the n pivots; true over R, cholesky_correct_real); for input that is symmetric only up to "
+    "eps = 2^-52 (accepted by the assert) only the lower triangle of L.L^T = A is proved; the universal rejection theorem needs sqrt positive and exact on positives (true over R)",
+    "is_square: the Rust code takes an f32 square root; the model uses the exact integer square root. They agree for every length below 2^24 "
+    "(at 2^24+1 Rust answers Ok(4096) and the model panics); theorems quantifying over the length hold for the code only for fewer than 2^24 elements",
+    "Matrix::lu, Matrix::det, lu_det, the Matrix substitutions, ipiv_parity, is_symmetric and is_square are hand-modelled and tied by run-time bit-exact correspondence only (the slice-level routines are additionally regenerated from the Rust text)",
+]
